@@ -635,6 +635,36 @@ def main(argv=None):
             reported.add(base)
             lines.append(f"VIOLATION property={prop} replay={path}{suffix}")
 
+    # bounded stand-ins: exhaustive native checks over a stated finite family, for clauses no contract within
+    # reach decides.  Reported separately, never counted as proved; a failing case is a violation with its input.
+    bounded_results = []
+    for b in meta.get("bounded", []):
+        script = VERIF / b["script"]
+        try:
+            pr = subprocess.run(["/venv/bin/python", str(script)], capture_output=True, text=True, timeout=600,
+                                env={**os.environ, "VERIF_REPO": str(source.REPO)})
+            summary = json.loads(pr.stdout.strip().splitlines()[-1])
+        except Exception as e:  # noqa
+            bounded_results.append({"name": b["name"], "bound": b["bound"], "error": repr(e)})
+            guard_fail.append(f"bounded stand-in {b['name']} could not be run: {e!r}")
+            continue
+        bounded_results.append({"name": b["name"], "level": "bounded (not a proof)", "bound": b["bound"], "script": b["script"],
+                                "cases": summary.get("cases"), "failed": summary.get("failed"), "first_failures": summary.get("failures", [])[:5]})
+        for fcase in summary.get("failures", [])[:3]:
+            d = OUT / "replays" / prop
+            d.mkdir(parents=True, exist_ok=True)
+            path = d / (re.sub(r"\W+", "_", "bounded_" + b["name"] + "_" + fcase["text"].encode("unicode_escape").decode())[:120] + ".py")
+            path.write_text(f'#!/venv/bin/python\n"""Failing case of the bounded stand-in {b["name"]!r} (property {prop}): {fcase["why"]}"""\n'
+                            f"import os, subprocess, sys\n"
+                            f"sys.exit(subprocess.call(['/venv/bin/python', {str(script)!r}, '--case', {fcase['text'].encode('unicode_escape').decode()!r}], env=os.environ))\n")
+            rc, outp = run_replay(path)
+            ok = rc == 1 and "REPRODUCED" in outp and "NOT-REPRODUCED" not in outp
+            violations.append({"function": b["script"], "obligation": "bounded:" + b["name"], "clause": fcase["why"], "replay": str(path),
+                               "reproduced": ok, "model": fcase["text"], "replay_out": outp[-300:]})
+            if ("bounded", b["name"]) not in reported:
+                reported.add(("bounded", b["name"]))
+                lines.append(f"VIOLATION property={prop} replay={path}" + ("" if ok else " no-failing-input-found"))
+
     wall = time.time() - t_start
     evidence = {
         "property_id": prop, "tier": tier, "seed": seed, "level": "proof",
@@ -655,7 +685,7 @@ def main(argv=None):
             "canaries": canary_results,
             "clauses_decided": meta.get("decided", []),
             "clauses_not_decided": meta.get("not_decided", []),
-            "bounded_standins": meta.get("bounded", []),
+            "bounded_standins": bounded_results,
             "extraction_drops": ["type annotations", "docstrings", "__slots__", "comments",
                                  "functools.lru_cache treated as transparent", "logger calls"],
             "known_findings_printed": known_printed,
